@@ -93,7 +93,7 @@ def fresh_like(ag):
 def run(ctx, rep):
     rng = ctx.rng
     rep.rule = ("random operation sequences of length 3..25 (assign command array, edit a row through mutable_command_array, set constants of the "
-                "right length, observe, set fitness) on AGraphs with reduce / CAS simplification; distinct = distinct (setting, sequence); "
+                "right length, observe through any reader, set fitness) on AGraphs with reduce / CAS simplification; after every operation: observations vs a fresh object, every reader as the first read, parameter count vs the stack; copies in both directions; distinct = distinct (setting, sequence); "
                 "non-trivial = at least one write after the first observation")
     rep.assumptions = ["constants are compared as opaque values (the model uses integers)"]
     lines, meta = [], []
